@@ -106,7 +106,8 @@ func layout(r *vk.RNG, toks []tok, style int) string {
 // ---- pools
 
 var (
-	c05Labels     = []string{"a", "b", "job", "app", "level", "status", "x_y", "_u", "k9", "Ab"}
+	c05Labels     = []string{"a", "b", "job", "app", "level", "status", "x_y", "_u", "k9", "Ab",
+		"Offset", "By", "JSON", "On", "Or", "Keep", "Unwrap", "Bool", "Without"} // keywords are case-sensitive: these are plain identifiers
 	c05FuncLabels = []string{"rate", "sum", "duration", "ip", "bytes", "count", "vector"} // function-named labels, used where the next token is an operator, "," or ")"
 	c05StrVals    = []string{"", "x", "hello world", "with \"quote\"", "back\\slash", "tab\there", "new\nline", "ünï", "{}()[]", "a|b", "#not comment", "`", "\x01", "%d", "'single'"}
 	c05Regexes    = []string{"a.*", "(x|y)+", "[0-9]{3}", "^GET$", "\\d+\\.\\d+", "", ".*", "(?i)err", "a\\\\b", "\"q\"", "[[:alpha:]]+"}
